@@ -259,6 +259,42 @@ def parse_tier(argv):
     return tier
 
 
+def thorough_selftest(prop, rc):
+    """Thorough tier: additionally run this property's seeded variants (mutants that must FIRE,
+    benign twins that must stay SILENT) against scratch copies of /repo's sources and record the
+    outcome in the evidence.  A variant that misbehaves means the CHECKER is broken: exit 2."""
+    sys.path.insert(0, VERIF)
+    from selftest.run import run as run_variants
+
+    t0 = time.time()
+    bad, vs, res = run_variants({prop}, verbose=False, tier="quick", quiet=True)
+    fired = sum(1 for v, r in zip(vs, res) if v["expect"] == "fire" and r["ok"])
+    nfire = sum(1 for v in vs if v["expect"] == "fire")
+    silent = sum(1 for v, r in zip(vs, res) if v["expect"] != "fire" and r["ok"])
+    nsilent = sum(1 for v in vs if v["expect"] != "fire")
+    evp = os.path.join(os.environ.get("VERIF_EVIDENCE_DIR") or os.path.join(VERIF, "evidence"), "%s.json" % prop)
+    try:
+        with open(evp) as f:
+            ev = json.load(f)
+        cov = ev["coverage"]
+        cov["selftest"] = {
+            "variants_fired": fired, "variants_expected": nfire, "twins_silent": silent, "twins_expected": nsilent,
+            "failed": [v["name"] for v, r in zip(vs, res) if not r["ok"]],
+            "names": [v["name"] for v in vs], "wall_s": round(time.time() - t0, 2),
+        }
+        cov["evaluations"] = cov.get("evaluations", 0) + len(vs)
+        ev["wall_s"] = round(ev.get("wall_s", 0) + time.time() - t0, 3)
+        with open(evp, "w") as f:
+            json.dump(ev, f, indent=1, default=str)
+    except Exception:
+        traceback.print_exc()
+    print("%s thorough: %d/%d seeded variants fired, %d/%d benign twins silent [%.1fs]" % (prop, fired, nfire, silent, nsilent, time.time() - t0))
+    if bad and rc == 0:
+        print("ANALYSIS-INCOMPLETE property=%s self-test: %d variant(s) misbehaved: the checker, not the code, needs attention" % (prop, bad))
+        return 2
+    return rc
+
+
 def run_main(prop, fn):
     """Wrap a check's main: tracebacks are analysis errors (exit 2), never violations."""
     try:
@@ -268,6 +304,8 @@ def run_main(prop, fn):
             with open(p) as f:
                 print(json.dumps(json.load(f), indent=1))
         rc = fn(tier)
+        if tier == "thorough" and not os.environ.get("VERIF_NO_SELFTEST"):
+            rc = thorough_selftest(prop, rc)
         sys.stdout.flush()
         sys.exit(rc)
     except SystemExit:
